@@ -62,6 +62,10 @@ def cases(tier, seed):
         for alphas in _sublists([0.7, 0.9]):
             for lv in (["postal_code"], ["postal_code", "county_fips"], ["county_fips", "postal_code"]):
                 out.append({"pm": "gaussian", "office": "G", "election": "smallstate", "estimands": est, "alphas": alphas, "aggregates": lv + ["unit"], "seed": seed})
+    # some reporting units have no classification (missing group key): every ordered aggregate list
+    for alphas in ([0.7], [0.7, 0.9]):
+        for lv in levels:
+            out.append({"pm": "gaussian", "office": "G", "election": "nocls", "estimands": ["turnout"], "alphas": alphas, "aggregates": lv + ["unit"], "seed": seed})
     # the historical client: every ordered sub-list of estimands, aggregate sub-lists
     for pm in ("nonparametric", "gaussian"):
         for est in _sublists(["turnout", "dem"]):
@@ -96,6 +100,12 @@ def _election_equal(case):
 def _election(case):
     if case.get("election") == "equal286":
         return _election_equal(case)
+    if case.get("election") == "nocls":
+        units = E.background(case["seed"], "G", 30, "AA2", partial=3)
+        for i, u in enumerate(units):
+            if i % 5 == 2:
+                u["cls"] = None
+        return units
     if case.get("election") == "smallstate":
         units = E.background(case["seed"], "G", 40, "AA2", partial=3)
         for k, st in enumerate(["reporting", "reporting", "reporting", "nonrep_partial", "nonrep0"]):
